@@ -103,6 +103,8 @@ type travGen struct {
 	req     []Clause
 	skipped []string
 	ptrs    []ptrClause
+	onPath  map[string]bool
+	others  []types.Type // handle types of the contract's other traversals
 }
 
 // ptrClause remembers a clause about an optional-handle cell (a pointer field):
@@ -182,6 +184,16 @@ func (g *travGen) walk(t types.Type, in, out, cond, condIn, label string, depth 
 		g.skipped = append(g.skipped, label)
 		return
 	}
+	// a field whose type is the handle of another traversal of the same contract
+	// is that traversal's business (it is handed to the function that is
+	// responsible for that type): nothing below it is required here
+	if depth > 0 && !sameHandle(t, g.h) {
+		for _, oh := range g.others {
+			if sameHandle(t, oh) {
+				return
+			}
+		}
+	}
 	if !e.hasHandle(t, g.h, 0) {
 		if g.isRemap() || g.tr.Mode == "keep" {
 			if _, isFunc := t.Underlying().(*types.Signature); isFunc {
@@ -194,12 +206,17 @@ func (g *travGen) walk(t types.Type, in, out, cond, condIn, label string, depth 
 		}
 		return
 	}
-	if sameHandle(t, g.h) {
+	if sameHandle(t, g.h) && !(depth == 0 && isIface(t)) {
 		if g.tr.Mode == "keep" {
 			return
 		}
 		if g.isRemap() {
 			add("trav:"+label, out+" == "+g.mapOf(g.rd(in)))
+		} else if isIface(t) {
+			// a node-typed handle (syntax trees): an absent child is not visited
+			add("trav:"+label, "!isnil("+g.rd(in)+") ==> "+g.mapOf(g.rd(in)))
+		} else if _, isPtr := t.Underlying().(*types.Pointer); isPtr {
+			add("trav:"+label, g.rd(in)+" != nil ==> "+g.mapOf(g.rd(in)))
 		} else {
 			add("trav:"+label, g.mapOf(g.rd(in)))
 		}
@@ -252,6 +269,8 @@ func (g *travGen) walk(t types.Type, in, out, cond, condIn, label string, depth 
 			add("trav:"+label+":len", "len("+out+") == len("+in+")")
 			add("trav:"+label, "forall i int :: 0 <= i && i < len("+in+") ==> "+out+"[i] == "+g.mapOf("old("+in+"[i])"))
 			add("frame:"+label, "forall i int :: 0 <= i && i < len("+in+") ==> "+in+"[i] == old("+in+"[i])")
+		} else if isIface(u.Elem()) {
+			add("trav:"+label, "forall i int :: 0 <= i && i < len("+g.rd(in)+") && !isnil("+g.rd(in+"[i]")+") ==> "+g.mapOf(g.rd(in+"[i]")))
 		} else {
 			add("trav:"+label, "forall i int :: 0 <= i && i < len("+g.rd(in)+") ==> "+g.mapOf(g.rd(in+"[i]")))
 		}
@@ -270,6 +289,16 @@ func (g *travGen) walk(t types.Type, in, out, cond, condIn, label string, depth 
 			g.skipped = append(g.skipped, label+" (open-world interface)")
 			return
 		}
+		if g.onPath == nil {
+			g.onPath = map[string]bool{}
+		}
+		if g.onPath[s] {
+			// a recursive node type (syntax trees): the nested node is the callee's business
+			g.skipped = append(g.skipped, label+" (nested node of the same interface)")
+			return
+		}
+		g.onPath[s] = true
+		defer func() { g.onPath[s] = false }()
 		if g.isRemap() || g.tr.Mode == "keep" {
 			add("trav:"+label+":nil", "isnil("+g.rd(in)+") ==> isnil("+out+")")
 		}
@@ -289,8 +318,16 @@ func (g *travGen) walk(t types.Type, in, out, cond, condIn, label string, depth 
 				g.skipped = append(g.skipped, kl+" (excluded kind)")
 				continue
 			}
-			if star != "" {
+			if star != "" && (g.isRemap() || g.tr.Mode == "keep") {
 				g.skipped = append(g.skipped, kl+" (pointer implementation)")
+				continue
+			}
+			if star != "" {
+				// a node type implemented by pointer (syntax trees): its fields are
+				// read through the pointer
+				c2 := joinCond(cond, "is("+g.rd(in)+", *"+cn+")")
+				cIn2 := joinCond(condIn, "is("+in+", *"+cn+")")
+				g.walk(c, in+".(*"+cn+")", out+".(*"+cn+")", c2, cIn2, kl, depth+1)
 				continue
 			}
 			c2 := joinCond(cond, "is("+g.rd(in)+", "+cn+")")
@@ -306,6 +343,19 @@ func (g *travGen) walk(t types.Type, in, out, cond, condIn, label string, depth 
 	default:
 		g.skipped = append(g.skipped, label+" ("+typeShort(t)+")")
 	}
+}
+
+// isHandleScalar: plain index-like handles (ExpressionHandle, TypeHandle, ...)
+// never contain other handles; only node types (interfaces, pointers, slices)
+// delegate.
+func isHandleScalar(t types.Type) bool {
+	_, ok := t.Underlying().(*types.Basic)
+	return ok
+}
+
+func isIface(t types.Type) bool {
+	_, ok := t.Underlying().(*types.Interface)
+	return ok
 }
 
 func implies(a, b string) string {
@@ -413,6 +463,15 @@ func (e *Engine) derived(fn *ssa.Function, ctr *Contract) (req, ens []Clause) {
 		se := &specEnv{f: &frame{e: e, fn: fn}, pkg: fn.Pkg.Pkg}
 		h := se.typeByName(tr.Handle)
 		g := &travGen{e: e, tr: tr, h: h, except: map[string]bool{}}
+		if tr.Mode == "mark" || tr.Mode == "stepmark" {
+			for _, o := range ctr.Traverses {
+				if o.Handle != tr.Handle && (o.Mode == "mark" || o.Mode == "stepmark") {
+					if oh := se.typeByName(o.Handle); !isHandleScalar(oh) {
+						g.others = append(g.others, oh)
+					}
+				}
+			}
+		}
 		for _, x := range ctr.Except {
 			g.except[x] = true
 		}
